@@ -4,6 +4,8 @@
    op ::= C <off> <len> <w:0|1> <pos> <datahex|-> <rpos> <rn>     create_chunk(off,len) ...
         | I <idx> <w> <pos> <datahex|-> <rpos> <rn>               create_chunk_index(idx) ...
         | M <idx> | V <idx> <off> <len> | Q | D | R | U | S <idx> | P <file> <off> <len>
+        | X <idx> <w> <first> <last> <adv> <s1,s2,..|-> <datahex|->   Chunk::preload + the down_chunk (w=1) /
+                                   up_chunk (w=0) ChunkIterator loop over [first,last) with short transfers s_i
         | H <idx> <l1,l2,..|->     HashChunk over piece idx: perform(l) per step, then perform(remaining);
                                    prints the bytes fed to SHA-1 (hashin=..); the glue hashes them
    A leading token T marks a loader-driven case (entries size[p]@path); the model ignores paths.
@@ -33,6 +35,9 @@ let parse_op = function
   | ["D"] -> OpDump
   | ["H"; idx; steps] ->
       OpHash (n_of_string idx, if steps = "-" then [] else List.map n_of_string (String.split_on_char ',' steps))
+  | ["X"; idx; w; first; last; _adv; steps; d] ->
+      OpXfer (n_of_string idx, b01 w, n_of_string first, n_of_string last,
+              (if steps = "-" then [] else List.map n_of_string (String.split_on_char ',' steps)), bytes_of_hex d)
   | ["R"] -> OpReopen
   | ["U"] -> OpUpdate
   | ["S"; idx] -> OpSetBit (n_of_string idx)
@@ -64,6 +69,9 @@ let show_out = function
   | OutDump imgs -> "dump=" ^ commas (function None -> "P" | Some b -> hex_of_bytes b) imgs
   | OutHash (Some b, pos) -> "hashin=" ^ hex_of_bytes b ^ " pos=" ^ sn pos
   | OutHash (None, pos) -> "hash=ERR:internal pos=" ^ sn pos
+  | OutXfer (pre, None) -> (if pre then "pre=ok" else "pre=ERR:internal") ^ " xfer=ERR:internal"
+  | OutXfer (pre, Some ((wins, total), sent)) ->
+      Printf.sprintf "pre=%s wins=%s xfer=%s out=%s" (if pre then "ok" else "ERR:internal") (commas sn wins) (sn total) (hex_of_bytes sent)
   | OutUpd ok -> if ok then "upd=ok" else "upd=ERR:internal"
   | OutSet ok -> if ok then "set=1" else "set=0"
   | OutPread (None, _) -> "pread=none"
